@@ -90,6 +90,16 @@ CLONES = ['copy', 'copy.copy', 'deepcopy', 'view'] + ['pickle%d' % p for p in ra
 
 def clone(d, how, base=None, hist=None):
     if how == 'reload':
+        if base == 'handle' and hasattr(d.infile, 'read'):
+            # the second load goes through the SAME open file object the first one was read from (it is still the caller's, and open)
+            import FlowCal
+            d2 = FlowCal.io.FCSData(d.infile)
+            O = ops()
+            for h in hist:
+                with warnings.catch_warnings():
+                    warnings.simplefilter('ignore')
+                    d2 = O[h](d2)
+            return d2
         return build(base, hist)
     if how == 'copy':
         return d.copy()
